@@ -128,7 +128,11 @@ RemoveBn ==
   /\ pc' = "loop"
   /\ UNCHANGED <<caller, W0, tptflow, scheme, numpaths, cutoff, total, paths, fluxes, counter, expl>>
 
-Next == Gen \/ Start \/ PeelNone \/ Peel \/ StopLimit \/ Subtract \/ RemoveBn
+(* TLC checks deadlock freedom: the loop always ends in "done" *)
+Terminated == pc = "done" /\ UNCHANGED vars
+
+Step == Gen \/ Start \/ PeelNone \/ Peel \/ StopLimit \/ Subtract \/ RemoveBn   \* (-simulate uses this)
+Next == Step \/ Terminated
 
 Spec == Init /\ [][Next]_vars
 
